@@ -44,6 +44,7 @@ fn run_line(line: &str) -> String {
         "TXTTEXT" => textapi::run_txttext(args),
         "HDRMOD" => header::run_hdrmod(args),
         "PEEKF" => header::run_peekf(args),
+        "SHOW" => observe::run_show(args),
         "TXTATTR" => textapi::run_txtattr(args),
         "ATTRMAP" => textapi::run_attrmap(args),
         "ESCAPE" => textapi::run_escape(args),
